@@ -952,6 +952,35 @@ def _msg_has_content(m: Msg) -> bool:
     return False
 
 
+def _msg_content3(interp, m: Msg) -> bool | None:
+    """proto3: a message serialises to zero bytes iff nothing is set.  True / False / None (depends on a string that may be empty)."""
+    maybe = False
+    for k, v in m.fields.items():
+        if isinstance(v, AList):
+            if v.items:
+                return True
+        elif isinstance(v, Msg):
+            if k in m.present:
+                return True
+        elif isinstance(v, ADict):
+            if v.pairs:
+                return True
+        elif isinstance(v, SStr):
+            if any(isinstance(p, str) and p or (isinstance(p, Atom) and p.nonempty is True) for p in v.parts):
+                return True
+            if v.parts:
+                maybe = True
+        elif isinstance(v, Unknown):
+            if v.positive:
+                return True
+            maybe = True
+        elif isinstance(v, ExtObj):
+            return True
+        elif v not in (0, "", b"", False, None):
+            return True
+    return None if maybe else False
+
+
 def _frames_remaining(interp, root: ExtObj) -> bool:
     if "peeked" in root.attrs:
         return True
@@ -1474,6 +1503,16 @@ def msg_method(interp, m: Msg, name: str, args: list, kwargs: dict) -> Any:
         m.present = c.present
         _mark_present(interp, m)
         return None
+    if name == "ByteSize":
+        forced = getattr(interp, "forced_frame_sizes", {}).get(m.uid)
+        if forced is not None:
+            return forced
+        c = _msg_content3(interp, m)
+        if c is False:
+            return 0
+        if c is True:
+            return Unknown(("bytesize", m.uid, len(interp.events)), f"ByteSize({m.mtype})", positive=True)
+        return Unknown(("bytesize", m.uid, len(interp.events)), f"ByteSize({m.mtype})")
     if name == "SerializeToString":
         det = kwargs.get("deterministic", None)
         interp.emit("serialize", msg=m, deterministic=det)
